@@ -461,6 +461,7 @@ class World:
         CTX.io_full = False
         CTX.io_fired = None
         CTX.io_events = []
+        seams._FD_PATHS.clear()
         CTX.io_record = record_io
         CTX.git = self.git
         CTX.analysed = []
